@@ -38,7 +38,9 @@ DumpE(o) == [groups |-> o.secs,
              ents |-> LET gs == <<NoGrp>> \o o.secs IN
                       Cat([n \in 1..Len(gs) |-> LET ks == KeysE(o, gs[n]) IN
                              [i \in 1..Len(ks) |-> LET e == o.ents[FindE(o, gs[n], ks[i])] IN
-                                                   [g |-> gs[n], k |-> ks[i], v |-> IF e.hasv THEN e.v ELSE <<>>]]])]
+                                                   [g |-> gs[n], k |-> ks[i], v |-> IF e.hasv THEN e.v ELSE <<>>,
+                                                    \* comments as econf_getExtValue reports them (NULL and "" alike)
+                                                    cb |-> IF e.cb.has THEN e.cb.t ELSE <<>>, ca |-> IF e.ca.has THEN e.ca.t ELSE <<>>]]])]
 
 \* ---------- econf_readFile ----------
 ParArgs(delim, comment) == [delim |-> delim, comment |-> IF comment = <<>> THEN <<35>> ELSE comment, python |-> FALSE, join |-> FALSE]
